@@ -9,9 +9,9 @@ element ids `< n` (`WF`) and `root < n`.
   `Hops g a t k`      : `t` is joined to `a` by `k` admissible (non-excluded) adjacencies
   `TreeDepth par r x d`: following `par` from `x` reaches `r` in `d` steps (so the tables are acyclic)
 
-Not proved here (oracle / exact correspondence only; see vlib/props/c10.py):
-  kruskal_minimum   : `(mst n root es).1` is a minimum-weight spanning forest of the admissible edges   (P2)
-  mst_orientation   : `(mst …).2` orients the root's component of that forest                           (P1)
+Proved in sibling modules (same namespace):
+  kruskal_spanning_forest (Props/C10Kruskal), kruskal_minimum (Props/C10KruskalMin),
+  orient_spec / mst_orientation (Props/C10Orient).
 -/
 namespace Mouette.Props.C10
 open Mouette.Trees
